@@ -344,7 +344,8 @@ Definition new_additional_properties (v : bytes) : R cval :=
   if is "true" txt then Ok (VAddProps (ra bool_tt txt false))
   else if is "any" txt then Ok (VAddProps (ra "string" txt false))
   else if is "false" txt then Ok (VAddProps (ra bool_tt txt false))
-  else if (is_user_type_name txt || is_valid_schema_type txt)%bool then Ok (VAddProps (ra "string" txt false))
+  else if (is_user_type_name txt || (is_valid_schema_type txt && negb (is "comment" txt)))%bool      (* fix 6af6f9e *)
+       then Ok (VAddProps (ra "string" txt false))
   else err ErrUnknownJSchemaType.
 
 Definition new_constraint (env : envt) (name : bytes) (namepos : N) (v : bytes) : R centry :=
